@@ -2946,6 +2946,7 @@ int hwloc_topology_export_xml(hwloc_topology_t topology, const char *filename, u
   }
 
   hwloc_internal_distances_refresh(topology);
+  hwloc_internal_memattrs_refresh(topology);
 
   hwloc_localeswitch_init();
 
@@ -2986,6 +2987,7 @@ int hwloc_topology_export_xmlbuffer(hwloc_topology_t topology, char **xmlbuffer,
   }
 
   hwloc_internal_distances_refresh(topology);
+  hwloc_internal_memattrs_refresh(topology);
 
   hwloc_localeswitch_init();
 
